@@ -22,7 +22,7 @@ func checkC07(p *Prog, r *Report) {
 	uptakeReset(p, r, "C07.R10")
 	c07AppliedDissolved(p, r)
 	// "finite": the partial operations of the nitrogen routines stay inside their domains (shared machinery with C06.R6)
-	domainRule(p, r, "C07.R7", "the nitrogen routines (denitrification, mineralisation, transport, daily bookkeeping)", []string{"hermes.Denitr", "hermes.Denitmo", "hermes.mineral", "hermes.nmove", "hermes.Nitro"}, 60)
+	domainRule(p, r, "C07.R7", "the nitrogen routines (denitrification, mineralisation, transport, daily bookkeeping) and the set-up of the organic N pools from the soil description", []string{"hermes.Denitr", "hermes.Denitmo", "hermes.mineral", "hermes.nmove", "hermes.Nitro", "hermes.SoilFileData.cNSetup", "hermes.Init"}, 60)
 }
 
 // ---------------------------------------------------------------- R1 decay pairing
